@@ -174,6 +174,7 @@ var stat struct {
 	famN, famFb            [3]int64 // ... per family (IPv4, IPv6, SCION), calls that ask for the fallback left out
 	histories, dropped     int64 // histories scripted; histories that could not be recorded in maxTries runs
 	retried                int64
+	shiftFb                int64 // clock-shift histories with a clock fallback: judged by the model only
 	portPairs, samePorts   int64 // consecutive requests of one call; those sent from the same source port
 }
 
@@ -257,6 +258,9 @@ func runWorker(a lib.Args, wi int) {
 		w.Case("c03.kstamps", "", lib.V(lib.I(stat.attempts), lib.I(stat.fbTx), lib.I(stat.fbRx),
 			lib.I(stat.histories), lib.I(stat.dropped), lib.I(stat.portPairs), lib.I(stat.samePorts),
 			lib.I(stat.famN[0]), lib.I(stat.famFb[0]), lib.I(stat.famN[1]), lib.I(stat.famFb[1]), lib.I(stat.famN[2]), lib.I(stat.famFb[2])), "")
+	}
+	if stat.shiftFb > 0 {
+		fmt.Printf("NOTE worker %d: %d clock-shift histories had a clock fallback (kernel timestamp not readable): oracle off for them, model agreement still required\n", wi, stat.shiftFb)
 	}
 	if stat.dropped > 0 || stat.retried > 0 {
 		fmt.Printf("NOTE worker %d: %d histories run again, %d of %d not recorded after %d runs (peer and client disagree on the number of requests, or an unscripted timeout)\n",
@@ -722,6 +726,7 @@ func runHistory(w *lib.Writer, hs *histScript) bool {
 	lossSeen, ntHist := false, false
 	var hAttempts, hFbTx, hFbRx, hPairs, hSame int64
 	var hFamN, hFamFb [3]int64
+	shiftFb := false
 
 	for i, cs := range hs.calls {
 		before := snapPrev()
@@ -800,7 +805,7 @@ func runHistory(w *lib.Writer, hs *histScript) bool {
 			ctx, cancel = context.WithTimeout(context.Background(), longWait)
 		}
 		c.zone = ""
-		if cs.zoneLo {
+		if cs.zoneLo || (os.Getenv("C03_FORCE_FALLBACK") != "" && hs.kind == "c03.window") {
 			c.zone = "lo"
 			tags["fallback-midchain"] = true
 		}
@@ -864,6 +869,13 @@ func runHistory(w *lib.Writer, hs *histScript) bool {
 			}
 			if at.fbTx || at.fbRx {
 				tags["fallback"] = true
+				if hs.shift != 0 {
+					// the client's clock and the clock that stamps the packets are decades apart in
+					// this history: an exchange that mixes a clock reading with kernel stamps has no
+					// meaningful bracket; the model still has to agree with what the client did
+					shiftFb = true
+					tags["clockshift-fallback"] = true
+				}
 			}
 			if k > 0 {
 				hPairs++
@@ -975,7 +987,12 @@ func runHistory(w *lib.Writer, hs *histScript) bool {
 						first = d.sendReal
 					}
 				}
-				rxok = !crxT.Before(first.Add(-time.Microsecond))
+				cmp := crxT
+				if at.fbRx {
+					// a receive time read from the client's clock is in that clock's time base
+					cmp = crxT.Add(-hs.shift)
+				}
+				rxok = !cmp.Before(first.Add(-time.Microsecond))
 			}
 			attOut = append(attOut, lib.L(lib.I(int64(al.srv+1)), lib.Bool(rxok), lib.U(uint64(al.req.LVM)), t64s(al.req.OriginTime), t64s(al.req.ReceiveTime), t64s(al.req.TransmitTime), resStr))
 			if al.req.ReceiveTime != (ntp.Time64{}) {
@@ -1020,6 +1037,9 @@ func runHistory(w *lib.Writer, hs *histScript) bool {
 		}
 	}
 	thePeer.mu.Unlock()
+	if shiftFb {
+		stat.shiftFb++
+	}
 	stat.attempts += hAttempts
 	for i := range hFamN {
 		stat.famN[i] += hFamN[i]
@@ -1039,7 +1059,7 @@ func runHistory(w *lib.Writer, hs *histScript) bool {
 	for t := range tags {
 		tl = append(tl, t)
 	}
-	args := lib.V(lib.Bool(hs.scion), lib.Bool(hs.im), lib.L(callsIn...), lib.L(xds...), "1", lib.U(hs.seed))
+	args := lib.V(lib.Bool(hs.scion), lib.Bool(hs.im), lib.L(callsIn...), lib.L(xds...), lib.Bool(!shiftFb), lib.U(hs.seed))
 	kind := hs.kind
 	if kind == "" {
 		kind = "c03.hist"
